@@ -256,12 +256,14 @@ type cfJudgement struct {
 	expected map[string]interface{}
 	actual   map[string]interface{}
 	diffID   int
+	diffPos  int // index of the first diverging invocation in the expected trace (-1: none)
 }
 
 // judge compares one real run with the model's prediction.
 func judge(p *gen.Program, exp gen.Outcome, r harness.Result, injMsg string) cfJudgement {
 	act := harness.TraceIDs(r.Trace)
 	j := cfJudgement{
+		diffPos:  -1,
 		expected: map[string]interface{}{"trace": idsString(exp.Trace)},
 		actual:   map[string]interface{}{"trace": idsString(act), "stdout": r.Stdout},
 	}
@@ -294,6 +296,7 @@ func judge(p *gen.Program, exp gen.Outcome, r harness.Result, injMsg string) cfJ
 		d := firstDiff(exp.Trace, act)
 		if d < len(exp.Trace) {
 			j.diffID = exp.Trace[d]
+			j.diffPos = d
 		} else if d < len(act) {
 			j.diffID = act[d]
 		}
@@ -390,7 +393,11 @@ func CFRun(it *harness.Interp, cfg CFConfig, t *tape.Tape, seed, run uint64, st 
 	if j0.what != "" {
 		if cfg.JudgeClean {
 			v := mk("clean", j0, -1, "")
-			v.Signature = fmt.Sprintf("%s/clean/%s/%s", cfg.Prop, pathOf(exp0, j0.diffID, roleOf(prog, j0.diffID)), j0.what)
+			where := pathOf(exp0, j0.diffID, j0.diffPos, roleOf(prog, j0.diffID))
+			if j0.what == "outcome" && j0.diffPos < 0 && exp0.Raised != nil && exp0.RaisePath != "" {
+				where = exp0.RaisePath // same invocations, other ending: name the place the expected error comes from
+			}
+			v.Signature = fmt.Sprintf("%s/clean/%s/%s", cfg.Prop, where, j0.what)
 			viols = append(viols, v)
 		} else {
 			st.CleanSkipped++
@@ -479,7 +486,10 @@ func skeleton(p *gen.Program) string {
 
 // pathOf returns the dynamic role path of the first invocation of slot id in the
 // model's trace (fallback: the static role).
-func pathOf(o gen.Outcome, id int, fallback string) string {
+func pathOf(o gen.Outcome, id int, pos int, fallback string) string {
+	if pos >= 0 && pos < len(o.Paths) {
+		return o.Paths[pos] // the dynamic path of the very invocation that is missing or different
+	}
 	for i, x := range o.Trace {
 		if x == id {
 			return o.Paths[i]
